@@ -24,6 +24,8 @@ CHECKS = {
  'C15': ('proof', 'Life-cycle model over terms: for every continuation after a save/restore the restored object differs at most in the unsaved _source, is identical after the next source initialisation, and every receiver collection is identical; kernel-checked witness for the direct-sound loss (known finding D8). Generated facts (re-extracted every run): to_dict keys = constructor parameters, None encoded/decoded on both paths, __eq__ compares to_dict, write footprints per method, the only unserialised attribute a pipeline method reads is _source. Tie: random histories with restores on real objects: term none <=> attribute None, equal terms => equal content hashes; oracle: round trip at every stage x continue both objects bit for bit (and a completed Kang run).', '5 C15', 'invariant by induction over operation histories (Lean 4) + translator + history correspondence'),
  'C16': ('proof', 'Life-cycle model: for every history of the grammar setters*;bake+;(init+;exchange(recalculate)+)* the whole state equals that of the canonical fresh history (config_determines); stages idempotent; setters commute up to the private table numbering; downstream reads materials only through per-wall effective tables; generated facts: read footprints of init/exchange/bake, no in-place mutation site targets a parameter. Tie: history correspondence (terms vs content hashes) incl. canonical twin of every history; oracle: history vs fresh object bit for bit, setter permutations, repeated stages, caller inputs hashed before/after each call.', '5 C16', 'invariant by induction over histories (Lean 4) + translator + history correspondence'),
  'C18': ('proof', 'check() and the __init__ conversions are TRANSLATED from the source on every run (symbolic execution of the method body into Lean reject conditions over an abstract configuration); theorems: whatever is accepted satisfies every documented constraint (all ranks, lengths, ids, scalars), a rejection is always ValueError, valid states whose walls all own a patch are accepted; kernel-evaluated examples. Tie: every catalogue corruption x every stage through the real from_dict, outcome compared with the generated checker run by the driver.', '5 C18', 'translator (regenerated model) + soundness proof (Lean 4) + differential tie'),
+ 'C19': ('proof', 'The Kang recursion is an instance of the exchange model (arcs = ordered pairs of patches on different walls, transfer factor ff x scattering x (1-absorption) of the RECEIVING wall x exp(-m d)): order recursion formula, truncation, receiver response monotone in the maximum order, direct-sound law; analytic form factors (orthogonal/parallel) and the first-order source term are translation invariant and follow the axes under cyclic permutation. Tie: real form factors, first-order energies, per-order E_matrix, receiver response vs the model (1e-10), _add_delay bit for bit; oracle on the implementation: recursion, prefix property, translation, cyclic permutation, monotonicity, direct sound.', '5 C19', 'refinement (instance of the core theorem) + algebraic invariance (Lean 4), differential tie'),
+ 'C20': ('proof', 'Theorems: the atan2/asin route of _get_metrics yields the unit vector (d.view, d.(up x view), d.up)/|d|; covariant under rotating source frame and scene together; factor = table[nearest direction][nearest frequency] (argmin specifications); multiplies every slot; unit table or no directivity = omnidirectional result (patch energies and direct sound). Tie: real _get_metrics / get_directivity on synthetic SOFA files vs the model; pipeline oracle: with vs without directivity, unit table, oriented source without directivity, rotation.', '5 C20', 'algebraic law (Lean 4 + Mathlib trigonometry), differential tie'),
 }
 
 NA = {}
